@@ -464,10 +464,15 @@ class Sem:
         """Index of the member the library's union writer serialises: the first largest member, named members
         (anything but an anonymous inline struct) preferred."""
         idx = sorted(range(len(u["fields"])), key=lambda i: -(self.size(u["fields"][i]["t"]) or 0))
+        skipped = None
         for i in idx:
             f = u["fields"][i]
-            if not (f.get("name") is None and self.res(f["t"])["k"] == "st"):
-                return i
+            if f.get("name") is None and self.res(f["t"])["k"] == "st":
+                skipped = i  # the writer remembers the LAST anonymous struct it passed over
+                continue
+            if (self.size(f["t"]) or 0) == 0 and skipped is not None:
+                return skipped  # the named member wrote nothing: the writer falls back to the anonymous struct
+            return i
         return idx[-1]  # only anonymous structs: the writer ends up with the last (smallest) one it skipped
 
     # ------------------------------------------------------------ encode
